@@ -13,9 +13,20 @@ struct C08 {
   std::vector<Act> m;
   long svc = 0;            // service calls so far == s.tick
   long proc_start = 0;
-  bool in_process = false;
+  bool in_process = false, with_clear = false;
   int budget = 0;          // injections still allowed in the current operation
-  int injected = 0, elapsed_deletes = 0, fired = 0;
+  int injected = 0, elapsed_deletes = 0, fired = 0, clears = 0, clears_elapsed = 0;
+  // mode with-clear: some actions play the part of the stack's own timers (their ids are entered in the node structure where COTmrClear looks
+  // for them: heartbeat producer, TPDO event / inhibit, one heartbeat consumer, SYNC producer); COTmrClear must cancel exactly those - pending or
+  // elapsed-but-unprocessed alike - and leave the application's actions alone
+  CO_HBCONS hbc;
+  int16_t *owner_slot(int k) { return k == 0 ? &s.node->Nmt.Tmr : k == 1 ? &s.node->TPdo[0].EvTmr : k == 2 ? &s.node->TPdo[CO_TPDO_N - 1].InTmr : k == 3 ? &hbc.Tmr : &s.node->Sync.Tmr; }
+  void stack_fields_init() {
+    s.node->Nmt.Tmr = -1; for (int n = 0; n < CO_TPDO_N; n++) { s.node->TPdo[n].EvTmr = -1; s.node->TPdo[n].InTmr = -1; }
+    memset(&hbc, 0, sizeof hbc); hbc.Tmr = -1; hbc.Next = 0; s.node->Nmt.HbCons = &hbc; s.node->Sync.Tmr = -1;
+  }
+  void disown(int id) { for (int k = 0; k < 5; k++) if (*owner_slot(k) == id) *owner_slot(k) = -1; }
+  bool owned(int id) { for (int k = 0; k < 5; k++) if (*owner_slot(k) == id) return true; return false; }
   explicit C08(Ctx &cx) : c(cx), s(cx) {}
 
   int nactive() const { int n = 0; for (auto &a : m) n += a.active; return n; }
@@ -50,7 +61,7 @@ struct C08 {
     CHECK(c, svc >= a.lo, "not-early-not-twice", "callback of tag %d ran at tick %ld, before its earliest due tick %ld (early, or twice for one expiry)", tag, svc, a.lo);
     fired++;
     if (a.cyc) { a.lo = proc_start + a.cyc; a.hi = svc + a.cyc; }
-    else a.active = false;
+    else { a.active = false; if (with_clear) disown(a.id); }
   }
   void create(uint32_t st, uint32_t cy) {
     int tag = (int)m.size(); long before = svc;
@@ -78,7 +89,16 @@ struct C08 {
     VLOG(c, "  ... -> %d", r);
     CHECK(c, (r == 0) == (h >= 0), "delete-result", "delete(id %d) returned %d but the model %s a pending action with this id%s", id, r, h >= 0 ? "has" : "has no",
           was_elapsed ? " (elapsed, unprocessed)" : "");
-    if (h >= 0) { m[h].active = false; if (was_elapsed) elapsed_deletes++; }
+    if (h >= 0) { m[h].active = false; if (was_elapsed) elapsed_deletes++; if (with_clear) disown(id); }
+  }
+  void clear() {
+    std::vector<int> mine; bool any_elapsed = false;
+    for (size_t k = 0; k < m.size(); k++) if (m[k].active && owned(m[k].id)) { mine.push_back((int)k); if (m[k].hi <= svc) any_elapsed = true; }
+    VLOG(c, "COTmrClear (%zu stack-owned action(s)%s) ...", mine.size(), any_elapsed ? ", elapsed and not yet processed among them" : "");
+    s.api_begin(); COTmrClear(&s.node->Tmr); s.api_end("COTmrClear");
+    for (int k : mine) m[k].active = false;
+    for (int k = 0; k < 5; k++) CHECK(c, *owner_slot(k) == -1, "clear-forgets-stack-timers", "after COTmrClear the stack still remembers timer id %d (owner %d)", *owner_slot(k), k);
+    clears++; if (any_elapsed) clears_elapsed++;
   }
   void process() {
     proc_start = svc;
@@ -97,19 +117,24 @@ struct C08 {
 C08 *g = nullptr;
 void C08::cb(void *p) { g->on_cb((int)(intptr_t)p - 1); }
 
-void case_random(Ctx &c) {
-  C08 x(c); g = &x;
+void case_impl(Ctx &c, bool with_clear) {
+  C08 x(c); g = &x; x.with_clear = with_clear;
   x.s.ntmr = (uint16_t)(1 + c.t.below(c.thorough ? 16 : 6));
   x.s.init_timer_only();
+  if (with_clear) x.stack_fields_init();
   x.s.preempt = [&](bool lock) { x.inject(lock); };
   VLOG(c, "pool=%u", x.s.ntmr);
   int steps = 0;
   while (!c.t.exhausted() && steps < 300) {
     steps++; c.ops++;
     x.budget = (int)c.t.below(4);
-    static const uint16_t W[5] = {30, 18, 22, 8, 22};
-    uint32_t op = c.t.weighted(W);
-    if (op == 0) { x.create(c.t.below(5), c.t.below(4)); x.after_op("create"); }
+    static const uint16_t W[5] = {30, 18, 22, 8, 22}, WC[6] = {30, 18, 22, 8, 22, 10};
+    uint32_t op = with_clear ? c.t.weighted(WC) : c.t.weighted(W);   // mode "random" keeps the alphabet the saved witnesses were recorded with
+    if (op == 5) { x.clear(); x.after_op("COTmrClear"); }
+    else if (op == 0) {
+      x.create(c.t.below(5), c.t.below(4));
+      if (with_clear && x.m.back().active && c.t.coin()) { int k = (int)c.t.below(5); if (*x.owner_slot(k) == -1) { *x.owner_slot(k) = (int16_t)x.m.back().id; VLOG(c, "  (id %d now belongs to the stack, owner %d)", x.m.back().id, k); } }
+      x.after_op("create"); }
     else if (op == 1) {
       // bias toward actions that have elapsed but are not processed yet
       std::vector<int> el, act;
@@ -131,7 +156,10 @@ void case_random(Ctx &c) {
   if (x.elapsed_deletes) c.cls("delete-of-elapsed-unprocessed");
   if (x.fired) c.cls("callback-fired");
   if (!x.injected && !x.elapsed_deletes) c.cls("no-preemption");
+  if (x.clears) c.cls("stack-timers-cleared"); if (x.clears_elapsed) c.cls("stack-timer-cleared-while-elapsed-and-unprocessed");
 }
+void case_random(Ctx &c) { case_impl(c, false); }
+void case_clear(Ctx &c) { case_impl(c, true); }
 
 Registrar reg(Prop{
     "C08",
@@ -139,7 +167,8 @@ Registrar reg(Prop{
     "at every preemption point the harness owns (before each COTmrLock acquisition, after each COTmrUnlock release, between calls) the tape decides how many tick-service calls preempt (0, 1, 2, until-next-expiry). "
     "Oracle: interval reference model (admissible due window per expiry) + pool walk after every call and every injected service. "
     "Non-trivial: at least one service call was injected at a lock boundary, or a delete hit an elapsed-but-unprocessed action. Distinct = distinct decoded choice sequence.",
-    {Mode{"random", case_random, false, 3000000, 100000000, 0, 0, 260, 500}},
+    {Mode{"random", case_random, false, 3000000, 100000000, 0, 0, 260, 500},
+     Mode{"with-clear", case_clear, false, 800000, 20000000, 0, 0, 260, 500}},
     {"the tick service is never injected while the lock is held (that is the contract COTmrLock/COTmrUnlock implement)",
      "timer driver = down counter as in drv_timer_swcycle.c",
      "while COTmrProcess runs, actions being dispatched may be linked nowhere: action-slot conservation is then checked as an upper bound, time-slot conservation exactly"}});
